@@ -151,26 +151,31 @@ CONSTANTS Sections,      \* the sections the environment may load: a set of sets
           PreReg,        \* facilities registered at start-up (besides core and *)
           DefTarget,     \* function: facility -> default target, for facilities registered with one
           Bug,           \* self-test switches: re-introduce a defect into B
-          MaxReloads     \* bound on the number of (re)loads in a behaviour
+          MaxReloads,    \* bound on the number of (re)loads in a behaviour
+          WithEmit       \* BOOLEAN: include the Emit action (it changes ghosts only; off for the big syntax universes)
 
-VARIABLES tree,          \* live nodes of the logs section, in set order: sequence of
-                         \*   [k, head, kind, val, hook, pstr]
-          types,         \* log_types: facility -> [def, specified, logs]
-          dests,         \* log_destinations: name -> refcnt
+VARIABLES sys,           \* the subsystem's state, a record (one variable so that TLC evaluates a step once):
+                         \*   tree   live nodes of the logs section, in set order: sequence of
+                         \*          [k, head, kind, val, hook, pstr]
+                         \*   types  log_types: facility -> [def, specified, logs]
+                         \*   dests  log_destinations: name -> refcnt
           cur,           \* ghost: the section of the last successful load
           out,           \* ghost: destinations written by the last Emit, in call order
           hist           \* ghost: the behaviour so far (hidden by the VIEW)
 
-vars == <<tree, types, dests, cur, out, hist>>
+vars == <<sys, cur, out, hist>>
+tree == sys.tree
+types == sys.types
+dests == sys.dests
 
 KindRank(kind) == IF kind = "s" THEN 0 ELSE 2          \* CONF_STRING = 0, CONF_STRING_LIST = 2
 KeyOf(e) == <<LowerSeq(Render(e.head)), KindRank(e.kind)>>
 KeyCmp(a, b) == LET c == SeqCmp(a[1], b[1]) IN IF c # 0 THEN c ELSE a[2] - b[2]      \* conf_object_cmp
-EntryLess(a, b) == KeyCmp(KeyOf(a), KeyOf(b)) < 0
-SortedEntries(S) == SetToSortSeq(S, EntryLess)
 
-(* a node spliced over from the parse tree: no hook yet, parsed.p_string never set *)
+(* a node as the parser builds it (and as it is spliced over): no hook yet, parsed.p_string never set *)
 NewNode(e) == [k |-> KeyOf(e), head |-> e.head, kind |-> e.kind, val |-> e.dests, hook |-> FALSE, pstr |-> FALSE]
+NodeLess(a, b) == KeyCmp(a.k, b.k) < 0
+SortedNodes(S) == SetToSortSeq({NewNode(e) : e \in S}, NodeLess)      \* the parse tree's logs object, in set order
 
 EmptyType(def) == [def |-> def, specified |-> {}, logs |-> [s \in Sev |-> <<>>]]
 
@@ -262,11 +267,11 @@ WithRescan(w) ==
 RECURSIVE Walk(_)
 Walk(w) ==
     IF w.tt = <<>> /\ w.ss = <<>> THEN w
-    ELSE LET res == IF w.tt # <<>> /\ w.ss # <<>> THEN KeyCmp(Head(w.tt).k, KeyOf(Head(w.ss)))
+    ELSE LET res == IF w.tt # <<>> /\ w.ss # <<>> THEN KeyCmp(Head(w.tt).k, Head(w.ss).k)
                     ELSE IF w.tt # <<>> THEN -1 ELSE 1
          IN
          IF res > 0 THEN                       \* not currently present: splice it over
-             Walk([w EXCEPT !.done = Append(@, NewNode(Head(w.ss))), !.ss = Tail(@), !.modified = TRUE])
+             Walk([w EXCEPT !.done = Append(@, Head(w.ss)), !.ss = Tail(@), !.modified = TRUE])
          ELSE IF res < 0 THEN                  \* no longer present: revert to default (nothing), node removed
              LET t == Head(w.tt) IN
              IF t.kind = "l" /\ t.val # <<>>
@@ -278,16 +283,16 @@ Walk(w) ==
          ELSE                                   \* present in both: update the value in place
              LET t == Head(w.tt)
                  s == Head(w.ss)
-                 changed == IF t.kind = "s" THEN (~t.pstr \/ s.dests # t.val)     \* conf_parse_string_value
-                            ELSE s.dests # t.val                                    \* conf_set_string_list_value
-                 t1 == [t EXCEPT !.val = s.dests, !.pstr = (t.kind = "s")]
+                 changed == IF t.kind = "s" THEN (~t.pstr \/ s.val # t.val)       \* conf_parse_string_value
+                            ELSE s.val # t.val                                      \* conf_set_string_list_value
+                 t1 == [t EXCEPT !.val = s.val, !.pstr = (t.kind = "s")]
                  w1 == [w EXCEPT !.tt = <<t1>> \o Tail(@)]
                  w2 == IF changed /\ t.hook THEN WithRescan(w1) ELSE w1
              IN Walk([w2 EXCEPT !.done = Append(@, Head(w2.tt)), !.tt = Tail(@), !.ss = Tail(@)])
 
-ConfReplaceLogs(st, S) ==
-    LET w == Walk([done |-> <<>>, tt |-> st.tree, ss |-> SortedEntries(S),
-                   types |-> st.types, dests |-> st.dests, modified |-> FALSE])
+ConfReplaceLogs(s0, S) ==
+    LET w == Walk([done |-> <<>>, tt |-> s0.tree, ss |-> SortedNodes(S),
+                   types |-> s0.types, dests |-> s0.dests, modified |-> FALSE])
         f == IF w.modified THEN WithRescan(w) ELSE w            \* if (modified && target_->hook) hook(target_)
     IN [tree |-> f.done \o f.tt, types |-> f.types, dests |-> f.dests]
 
@@ -297,32 +302,29 @@ Written(ty, fac, sev) == (IF fac \in DOMAIN ty THEN ty[fac].logs[sev] ELSE <<>>)
 ---------------------------------------------------------------------------
 (* Part 4: the state machine *)
 
-RECURSIVE RegisterAll(_, _)
-RegisterAll(st, facs) ==
-    IF facs = <<>> THEN st
-    ELSE RegisterAll(LogTypeRegister(st, Head(facs),
-                                     IF Head(facs) \in DOMAIN DefTarget THEN DefTarget[Head(facs)] ELSE NoDest),
-                     Tail(facs))
+RECURSIVE RegisterAll(_, _, _)
+RegisterAll(s0, facs, def) ==
+    IF facs = <<>> THEN s0
+    ELSE RegisterAll(LogTypeRegister(s0, Head(facs), IF Head(facs) \in DOMAIN def THEN def[Head(facs)] ELSE NoDest),
+                     Tail(facs), def)
 
 (* log_init(): core and * registered, initial rescan of the (empty) section; then the start-up registrations *)
-InitState ==
+InitStateFor(prereg, def) ==
     RegisterAll(LogRescanConf([tree |-> <<>>, types |-> (Core :> EmptyType(NoDest)) @@ (Star :> EmptyType(NoDest)),
                                dests |-> <<>>]),
-                SetToSortSeq(PreReg, FacLess))
+                SetToSortSeq(prereg, FacLess), def)
+InitState == InitStateFor(PreReg, DefTarget)
 
-RenderSection(S) == LET es == SortedEntries(S) IN
-                    [i \in DOMAIN es |-> [name |-> Render(es[i].head), kind |-> es[i].kind, dests |-> es[i].dests]]
+RenderSection(S) == LET es == SortedNodes(S) IN
+                    [i \in DOMAIN es |-> [name |-> Render(es[i].head), kind |-> es[i].kind, dests |-> es[i].val]]
 
-Init == /\ tree = InitState.tree
-        /\ types = InitState.types
-        /\ dests = InitState.dests
+Init == /\ sys = InitState
         /\ cur = {}
         /\ out = <<>>
         /\ hist = <<>>
 
 Reload(S) ==
-    LET st == ConfReplaceLogs([tree |-> tree, types |-> types, dests |-> dests], S) IN
-    /\ tree' = st.tree /\ types' = st.types /\ dests' = st.dests
+    /\ sys' = ConfReplaceLogs(sys, S)
     /\ cur' = S
     /\ out' = <<>>
     /\ hist' = Append(hist, [e |-> "load", sec |-> RenderSection(S)])
@@ -330,34 +332,32 @@ Reload(S) ==
 (* a file without a logs section: conf_replace_value(logs, NULL) reverts every child, which is the  *)
 (* same sequence of calls as merging with an empty section                                           *)
 ReloadNoSection ==
-    LET st == ConfReplaceLogs([tree |-> tree, types |-> types, dests |-> dests], {}) IN
-    /\ tree' = st.tree /\ types' = st.types /\ dests' = st.dests
+    /\ sys' = ConfReplaceLogs(sys, {})
     /\ cur' = {}
     /\ out' = <<>>
     /\ hist' = Append(hist, [e |-> "nosec"])
 
 (* a file with a syntax error: conf_read() longjmps before conf_replace_value() *)
 ReloadFail ==
-    /\ UNCHANGED <<tree, types, dests, cur>>
+    /\ UNCHANGED <<sys, cur>>
     /\ out' = <<>>
     /\ hist' = Append(hist, [e |-> "fail"])
 
 EmitFacs == {Core, Star} \cup PreReg
 
 Emit(fac, sev) ==
-    LET st == LogTypeRegister([tree |-> tree, types |-> types, dests |-> dests], fac, NoDest) IN
-    /\ types' = st.types /\ dests' = st.dests
-    /\ out' = Written(st.types, fac, sev)
-    /\ UNCHANGED <<tree, cur, hist>>
+    /\ sys' = LogTypeRegister(sys, fac, NoDest)           \* the emitter looks its facility up (or registers it)
+    /\ out' = Written(sys'.types, fac, sev)
+    /\ UNCHANGED <<cur, hist>>
 
 Next == \/ Len(hist) < MaxReloads /\ \E S \in Sections : Reload(S)
         \/ Len(hist) < MaxReloads /\ ReloadNoSection
         \/ Len(hist) < MaxReloads /\ ReloadFail
-        \/ \E f \in EmitFacs, s \in Sev : Emit(f, s)
+        \/ WithEmit /\ \E f \in EmitFacs, s \in Sev : Emit(f, s)
 
 Spec == Init /\ [][Next]_vars
 
-View == <<tree, types, dests, cur>>
+View == <<sys, cur>>
 
 ---------------------------------------------------------------------------
 (* What TLC checks on B *)
